@@ -87,4 +87,10 @@ META = {
         note="Trusts the reference predicate (common application = an advertised id that is relay or supported with that type by an application element of the XML) and refcodec for building CERs and parsing CEAs.",
         technique="runtime monitoring: end-to-end CER/CEA exchange vs reference acceptance predicate, transport close log and metadata probe, inside synctest bubbles under the race detector",
     ),
+    "C10": dict(
+        text="Exploration with a bounded-exhaustive core: every peer sequence up to length 4 (thorough 5) in two delivery modes on the server side and every reply sequence up to length 4 on the client side is executed against the real state machine, and the handler-invocation log is compared with a 3-state reference gate; random longer sequences beyond.",
+        design_ref="DESIGN.md section 4, C10",
+        note="Trusts the reference gate and the scripted peer (refcodec); quiescence of the bubble stands for 'the message has been processed'.",
+        technique="runtime monitoring: handler-invocation log vs reference gate automaton over enumerated peer message sequences (synctest bubbles, race detector)",
+    ),
 }
